@@ -30,7 +30,7 @@ def showLog (s : SetSt) : String :=
 
 def handleShape (toks : List String) : List String × List String :=
   match toks with
-  | [name, mac, _style, seed, steps, tree, derived, hand] =>
+  | [name, mac, _style, seed, steps, tree, derived, hand, derived2, hand2] =>
     let treeS := ((val tree).drop 1).dropEnd 1
     match parseMembers (treeS.toString.splitOn "_"), (val seed).toNat?, (val steps).toNat? with
     | some (top, []), some seed, some steps =>
@@ -41,6 +41,8 @@ def handleShape (toks : List String) : List String × List String :=
       let h := val hand
       let tail := s!"tr=1 op=shape_{name}_{val mac}_{val _style}_seed{seed}"
       ((if d != h then [s!"A C20 {name} 0 derived_differs_from_handwritten {tail}"] else []) ++
+       -- second run: a generator whose 32-bit draws and byte filling are not derived from its 64-bit draws
+       (if val derived2 != val hand2 then [s!"A C20 {name} 0 derived_differs_from_handwritten_on_another_generator {tail}"] else []) ++
        (if d == h && d != model then [s!"K {name} 0 derived_log_differs_from_model {tail}"] else []),
        ["shape:" ++ val mac, "shape_leaves:" ++ toString top.leaves.length])
     | _, _, _ => ([s!"BAD shape tree {tree}"], [])
